@@ -29,7 +29,7 @@ from pymbolic.mapper import IdentityMapper
 from pytools import UniqueNameGenerator
 
 from dagrt.codegen.dag_ast import (
-    ASTIdentityMapper, Block, StatementWrapper, get_statements_in_ast)
+    ASTIdentityMapper, Block, IfThen, StatementWrapper, get_statements_in_ast)
 
 
 __doc__ = """
@@ -61,13 +61,22 @@ class ASTStatementRewriter(ASTIdentityMapper):
 
     def map_StatementWrapper(self, expr):
         new_statements = [
-                StatementWrapper(stmt)
+                self.wrap_statement(stmt)
                 for stmt in self.map_statement(expr.statement)]
 
         if len(new_statements) > 1:
             return Block(*new_statements)
         else:
             return new_statements[0]
+
+    @staticmethod
+    def wrap_statement(stmt):
+        # In an AST, guards are nodes: code generators do not look at the
+        # 'condition' attribute of a wrapped statement.
+        condition = getattr(stmt, "condition", True)
+        if condition is True:
+            return StatementWrapper(stmt)
+        return IfThen(condition, StatementWrapper(stmt.copy(condition=True)))
 
     def map_statement(self, statement):
         raise NotImplementedError()
